@@ -85,7 +85,7 @@ func init() {
 						e.Close()
 						return err
 					}
-					t.Emit("Hello", "c", c.ID)
+					t.Emit("Hello", "c", c.ID, "ver", int(c.Version))
 					clients = append(clients, &evClient{c: c})
 				case k < 4 && len(clients) > 0: // register
 					ec := clients[rnd.Intn(len(clients))]
